@@ -85,6 +85,10 @@ def hist_case(draw, nmax=30, maxlen=8, allow_other=False, allow_singular=False, 
     if user_ws and not any(o.startswith("TUNE") for o in ops) and draw(st.integers(0, 2)) == 0:
         # the whole history runs in a caller-supplied workspace sized from the library's own query (for 4 threads)
         s["ws_factor"] = draw(st.sampled_from([1.5, 2.0, 4.0])); s["ws_P"] = 4
+        if draw(st.integers(0, 2)) == 0:
+            # ... or sized for a single thread: a later step with more threads may legitimately run out of it (info > n), but must
+            # never take its work areas from the space that holds the factors
+            s["ws_factor"] = draw(st.sampled_from([1.0, 1.02, 1.1, 1.25])); s["ws_P"] = 1; s["ws_tight"] = 1
     return {"set": s, "entries": entries, "ops": ops, "family": rec["family"]}
 
 
@@ -100,6 +104,7 @@ def hist_classes(case, v):
     if f.get("singular_steps", 0): labs.append("singular_step")
     if any(" P=2" in o or " P=3" in o or " P=4" in o for o in ops): labs.append("has_parallel_step")
     if s.get("ws_factor"): labs.append("user_workspace x%s" % s["ws_factor"])
+    if f.get("ws_exhausted", 0): labs.append("tight_workspace_ran_out(info>n)")
     if "TUNE" in kinds and f.get("tunes", 0): labs.append("tunables_changed_between_factorizations")
     if v.get("v") == "fail": labs.append("sig=" + v.get("sig", ""))
     return labs
